@@ -72,7 +72,11 @@ func (c varCase) annoText() string {
 	if c.Format == "gb" {
 		return c.Anno.renderGenbank()
 	}
-	return c.Anno.renderGFF(c.GFF)
+	g := c.GFF
+	if !g.WithFasta && !((c.Form == "msa" && c.Msa != nil && c.Msa.RefID != "") || (c.Form == "sam" && c.RefFromFile)) {
+		g.WithFasta = true // the annotation is the only source of the reference in this case
+	}
+	return c.Anno.renderGFF(g)
 }
 
 // effectiveAnno: the features the chosen format can express (GenBank CDS need a /gene).
@@ -229,6 +233,8 @@ func labelVarCase(c varCase, o *Obs) (nontrivial bool) {
 	o.LabelIf(c.Format == "gff" && c.GFF.SpecPhases, "gff:spec-phases")
 	o.LabelIf(c.Format == "gff" && c.GFF.SortRows, "gff:coordinate-sorted-rows")
 	o.LabelIf(c.Format == "gff" && c.GFF.ParentAttr, "gff:parent-attributes")
+	o.LabelIf(c.Format == "gff" && !c.GFF.WithFasta, "gff:no-fasta-section")
+	o.LabelIf(c.Format == "gff" && c.GFF.NoFinalNL, "gff:no-final-newline")
 	names, views, err := c.queryViews()
 	if err != nil {
 		return false
@@ -337,6 +343,14 @@ func genVarCase(t *rapid.T, emphasis string) varCase {
 			}
 		}
 	}
+	// the ##FASTA section is optional when the reference comes from elsewhere (the alignment's own reference record, or -r), and a
+	// file need not end in a newline: then the last feature line is the file's last, unterminated line
+	if (c.Form == "msa" && c.Msa.RefID != "") || (c.Form == "sam" && c.RefFromFile) {
+		if rapid.IntRange(0, 2).Draw(t, "gffWithoutFasta") == 0 {
+			c.GFF.WithFasta = false
+		}
+	}
+	c.GFF.NoFinalNL = rapid.IntRange(0, 2).Draw(t, "gffNoFinalNewline") == 0
 	return c
 }
 
